@@ -5,25 +5,42 @@
 //!   `<layer> <layer> ... | x1,x2,.. | g1,g2,.. | c1,c2,..`
 //!   layer  = `S <p>`  (one processor behind its own Buffer) or `C <p> <p>` (two processors
 //!            composed with `PipelineBuilder` / `ComposedProcessors` behind one Buffer)
-//!   p      = `tag:grp:nd:perrs:nerrs:pdel` (lists are `.`-separated, `-` = empty)
+//!   p      = `tag:grp:nd:perrs:nerrs:pdel[:qm:pm]` (lists are `.`-separated, `-` = empty)
 //!            tag   added to every accepted item; grp <= 1: FIFO, grp = k >= 2: items are held
-//!            until k are there and then released in reverse order; nd = number of
-//!            `yield_now()` at the start of every `next()`; perrs = inputs on which `process`
-//!            returns Err; nerrs = inputs queued as an Err result of `next`; pdel = per-item
-//!            number of `yield_now()` inside `process` (index = item mod len).
+//!            until k are there and then released in reverse order (a burst of k outputs
+//!            becoming ready at once); nd = number of `yield_now()` at the start of every
+//!            `next()`; perrs = inputs on which `process` returns Err; nerrs = inputs queued as
+//!            an Err result of `next`; pdel = per-item number of `yield_now()` inside `process`
+//!            (index = item mod len).
+//!            qm = how `next()` waits for its output queue: 0 = `Notify` + VecDeque (takes no
+//!            part in tokio's cooperative budget), 1 = the queue is a `tokio::sync::mpsc`
+//!            unbounded channel (`recv` consumes one budget unit per item and returns Pending
+//!            when the budget is used up), 2 = VecDeque guarded by a `tokio::sync::Semaphore`
+//!            holding one permit per queued item (`acquire` consumes budget alike).
+//!            pm = 1: `process` first locks (and releases) a `tokio::sync::Mutex` — one budget
+//!            unit per item, Pending only when the task's budget is exhausted.
 //!   x..    = input items; g.. = polls of the source before item i is ready; c.. = ticks the
 //!            consumer waits after the j-th received output (cyclic).
 //!
-//! All delays are counted in `tokio::task::yield_now()` so the run does not depend on wall-clock
-//! time. What remains free is tokio's own behaviour (`select!` branch order, wake order); that is
-//! why the result carries the *observed event trace*, which the Gallina model replays.
+//! All scripted delays are counted in `tokio::task::yield_now()` so the run does not depend on
+//! wall-clock time. What remains free is tokio's own behaviour (`select!` branch order, wake
+//! order, the cooperative budget of 128 units per task poll); that is why the result carries the
+//! *observed event trace*, which the Gallina model replays.
+//!
+//! Every item travels as a `Tok`: a value with a destructor that reports when the token is
+//! destroyed before a `process` call, the glue or the consumer took the value out of it. So an
+//! item that vanishes anywhere in the real code (a cancelled `process` future, a cancelled
+//! `next()` future that holds an item across an await point, ...) is OBSERVED at the moment it
+//! happens, not only inferred from a missing output.
 //!
 //! Result: `<events> | <lost items> | <idle|busy>`; events (k = layer index from the source):
 //!   `Pk:<o>` layer k's pump took `o` from its upstream (layer 0: from the source),
 //!   `Rk:x` Buffer k received x and called `process(x)`, `Ek:x` that call returned,
-//!   `Nk:<r>` the last processor's `next` dequeued r, `Hk:<r>` composed: first.next dequeued r,
-//!   `Fk:y` composed: second.process(y) returned, `Dk:y` composed: second.process(y) future was
-//!   dropped before completion, `Y:<o>` the consumer received o.
+//!   `Nk:<r>` the last processor's `next` dequeued r, `Xk:<r>` first/only processor's `next`
+//!   dequeued r, `Fk:y` composed: second.process(y) returned, `Dk:y` composed: the intermediate
+//!   item y (dequeued from first, not yet accepted by second) was destroyed, `Zk:y` any other
+//!   token (an input of layer k or an output of its last processor) was destroyed, `Y:<o>` the
+//!   consumer received o.
 //!   o = `q+N` Ok(N) | `q-N` Err from last next | `fN` Err from first.next (composed) |
 //!       `aN` Err from first/only process | `bN` Err from second.process; r = `+N` | `-N`.
 use std::cell::{Cell, RefCell};
@@ -34,7 +51,7 @@ use std::task::{Context, Poll};
 
 use futures_util::{Stream, StreamExt};
 use p2panda_stream::{ComposedError, ComposedProcessors, PipelineBuilder, Processor, StreamLayerExt};
-use tokio::sync::Notify;
+use tokio::sync::{Mutex, Notify, Semaphore, mpsc};
 use tokio::task::{LocalSet, yield_now};
 
 #[derive(Default)]
@@ -57,6 +74,40 @@ impl Shared {
     }
 }
 
+/// An item in transit. `mid` = intermediate item of a composed layer (dequeued from the first
+/// processor, on its way into the second one).
+struct Tok {
+    v: u64,
+    mid: bool,
+    layer: usize,
+    armed: bool,
+    sh: Rc<Shared>,
+}
+
+impl Tok {
+    fn new(v: u64, mid: bool, layer: usize, sh: &Rc<Shared>) -> Tok {
+        Tok { v, mid, layer, armed: true, sh: sh.clone() }
+    }
+    /// The value arrived where it was meant to go.
+    fn take(mut self) -> u64 {
+        self.armed = false;
+        self.v
+    }
+}
+
+impl Drop for Tok {
+    fn drop(&mut self) {
+        if self.armed && !self.sh.finished.get() {
+            if self.mid {
+                self.sh.lost.borrow_mut().push(self.v);
+                self.sh.ev(format!("D{}:{}", self.layer, self.v));
+            } else {
+                self.sh.ev(format!("Z{}:{}", self.layer, self.v));
+            }
+        }
+    }
+}
+
 #[derive(Clone, Debug)]
 struct PCfg {
     tag: u64,
@@ -65,12 +116,21 @@ struct PCfg {
     perrs: Vec<u64>,
     nerrs: Vec<u64>,
     pdel: Vec<usize>,
+    qm: u8,
+    pm: u8,
 }
 
 #[derive(Clone, Copy, Debug, PartialEq, Eq)]
 enum PE {
     Proc(u64),
     Next(u64),
+}
+
+#[derive(Clone, Copy, Debug, PartialEq, Eq)]
+enum Role {
+    Only,
+    First,
+    Second,
 }
 
 type Res = Result<u64, u64>;
@@ -84,52 +144,100 @@ fn show_res(r: &Res) -> String {
 
 struct ScriptProc {
     layer: usize,
-    second: bool,
+    role: Role,
     cfg: PCfg,
     held: RefCell<Vec<Res>>,
+    // qm = 0 / 2: the output queue; qm = 0 waits on `notify`, qm = 2 on `sem` (permits = length)
     queue: RefCell<VecDeque<Res>>,
     notify: Notify,
+    sem: Semaphore,
+    // qm = 1: the output queue is a tokio channel
+    chan_tx: mpsc::UnboundedSender<Res>,
+    chan_rx: RefCell<mpsc::UnboundedReceiver<Res>>,
+    // pm = 1
+    gate: Mutex<()>,
     sh: Rc<Shared>,
 }
 
 impl ScriptProc {
-    fn new(layer: usize, second: bool, cfg: PCfg, sh: Rc<Shared>) -> Self {
-        ScriptProc { layer, second, cfg, held: RefCell::new(Vec::new()), queue: RefCell::new(VecDeque::new()), notify: Notify::new(), sh }
+    fn new(layer: usize, role: Role, cfg: PCfg, sh: Rc<Shared>) -> Self {
+        let (chan_tx, chan_rx) = mpsc::unbounded_channel();
+        ScriptProc {
+            layer,
+            role,
+            cfg,
+            held: RefCell::new(Vec::new()),
+            queue: RefCell::new(VecDeque::new()),
+            notify: Notify::new(),
+            sem: Semaphore::new(0),
+            chan_tx,
+            chan_rx: RefCell::new(chan_rx),
+            gate: Mutex::new(()),
+            sh,
+        }
     }
-}
 
-/// Reports a `process` future that is dropped before it completed.
-struct InFlight<'a> {
-    p: &'a ScriptProc,
-    x: u64,
-    armed: bool,
-}
+    fn push(&self, r: Res) {
+        match self.cfg.qm {
+            1 => {
+                let _ = self.chan_tx.send(r);
+            }
+            2 => {
+                self.queue.borrow_mut().push_back(r);
+                self.sem.add_permits(1);
+            }
+            _ => {
+                self.queue.borrow_mut().push_back(r);
+            }
+        }
+    }
 
-impl Drop for InFlight<'_> {
-    fn drop(&mut self) {
-        if self.armed && !self.p.sh.finished.get() {
-            self.p.sh.lost.borrow_mut().push(self.x);
-            self.p.sh.ev(format!("D{}:{}", self.p.layer, self.x));
+    /// Wait for the next queued result. Cancel-safe in every mode: nothing is taken out of the
+    /// queue before the final, non-suspending step.
+    async fn dequeue(&self) -> Res {
+        match self.cfg.qm {
+            1 => self.chan_rx.borrow_mut().recv().await.expect("sender lives as long as receiver"),
+            2 => {
+                let permit = self.sem.acquire().await.expect("semaphore never closed");
+                permit.forget();
+                self.queue.borrow_mut().pop_front().expect("one permit per queued item")
+            }
+            _ => loop {
+                let item = self.queue.borrow_mut().pop_front();
+                if let Some(r) = item {
+                    // More items may be waiting: keep the permit for the next call.
+                    if !self.queue.borrow().is_empty() {
+                        self.notify.notify_one();
+                    }
+                    return r;
+                }
+                self.notify.notified().await;
+            },
         }
     }
 }
 
-impl Processor<u64> for ScriptProc {
-    type Output = u64;
+impl Processor<Tok> for ScriptProc {
+    type Output = Tok;
     type Error = PE;
 
-    async fn process(&self, x: u64) -> Result<(), PE> {
-        if !self.second {
+    async fn process(&self, tok: Tok) -> Result<(), PE> {
+        // `tok` lives in this future until the value is taken below: if the future is dropped
+        // before that, the token's destructor reports it.
+        let x = tok.v;
+        if self.role != Role::Second {
             self.sh.ev(format!("R{}:{}", self.layer, x));
         }
-        let mut guard = InFlight { p: self, x, armed: true };
+        if self.cfg.pm == 1 {
+            let _g = self.gate.lock().await;
+        }
         let d = if self.cfg.pdel.is_empty() { 0 } else { self.cfg.pdel[(x % self.cfg.pdel.len() as u64) as usize] };
         for _ in 0..d {
             self.sh.tick();
             yield_now().await;
         }
-        guard.armed = false;
-        let done = if self.second { 'F' } else { 'E' };
+        let x = tok.take();
+        let done = if self.role == Role::Second { 'F' } else { 'E' };
         if self.cfg.perrs.contains(&x) {
             self.sh.ev(format!("{}{}:{}", done, self.layer, x));
             return Err(PE::Proc(x));
@@ -137,14 +245,13 @@ impl Processor<u64> for ScriptProc {
         let y = x + self.cfg.tag;
         let r: Res = if self.cfg.nerrs.contains(&x) { Err(y) } else { Ok(y) };
         if self.cfg.grp <= 1 {
-            self.queue.borrow_mut().push_back(r);
+            self.push(r);
         } else {
             let mut h = self.held.borrow_mut();
             h.push(r);
             if h.len() == self.cfg.grp {
-                let mut q = self.queue.borrow_mut();
                 for it in h.drain(..).rev() {
-                    q.push_back(it);
+                    self.push(it);
                 }
             }
         }
@@ -153,23 +260,17 @@ impl Processor<u64> for ScriptProc {
         Ok(())
     }
 
-    async fn next(&self) -> Result<u64, PE> {
+    async fn next(&self) -> Result<Tok, PE> {
         for _ in 0..self.cfg.nd {
             self.sh.tick();
             yield_now().await;
         }
-        loop {
-            let item = self.queue.borrow_mut().pop_front();
-            if let Some(r) = item {
-                // More items may be waiting: keep the permit for the next call.
-                if !self.queue.borrow().is_empty() {
-                    self.notify.notify_one();
-                }
-                let tagc = if self.second { 'N' } else { 'X' };
-                self.sh.ev(format!("{}{}:{}", tagc, self.layer, show_res(&r)));
-                return r.map_err(PE::Next);
-            }
-            self.notify.notified().await;
+        let r = self.dequeue().await;
+        let tagc = if self.role == Role::Second { 'N' } else { 'X' };
+        self.sh.ev(format!("{}{}:{}", tagc, self.layer, show_res(&r)));
+        match r {
+            Ok(y) => Ok(Tok::new(y, self.role == Role::First, self.layer, &self.sh)),
+            Err(y) => Err(PE::Next(y)),
         }
     }
 }
@@ -184,8 +285,8 @@ struct Source {
 }
 
 impl Stream for Source {
-    type Item = u64;
-    fn poll_next(mut self: Pin<&mut Self>, cx: &mut Context<'_>) -> Poll<Option<u64>> {
+    type Item = Tok;
+    fn poll_next(mut self: Pin<&mut Self>, cx: &mut Context<'_>) -> Poll<Option<Tok>> {
         if self.idx >= self.items.len() {
             return Poll::Ready(None);
         }
@@ -200,7 +301,7 @@ impl Stream for Source {
         let i = self.idx;
         self.countdown = if i < self.items.len() && !self.gaps.is_empty() { self.gaps[i % self.gaps.len()] } else { 0 };
         self.sh.ev(format!("P0:q+{}", x));
-        Poll::Ready(Some(x))
+        Poll::Ready(Some(Tok::new(x, false, 0, &self.sh)))
     }
 }
 
@@ -218,23 +319,32 @@ where
 
 fn pcfg(s: &str) -> PCfg {
     let f: Vec<&str> = s.split(':').collect();
-    PCfg { tag: f[0].parse().unwrap(), grp: f[1].parse().unwrap(), nd: f[2].parse().unwrap(), perrs: list(f[3], '.'), nerrs: list(f[4], '.'), pdel: list(f[5], '.') }
+    PCfg {
+        tag: f[0].parse().unwrap(),
+        grp: f[1].parse().unwrap(),
+        nd: f[2].parse().unwrap(),
+        perrs: list(f[3], '.'),
+        nerrs: list(f[4], '.'),
+        pdel: list(f[5], '.'),
+        qm: f.get(6).map(|t| t.parse().unwrap()).unwrap_or(0),
+        pm: f.get(7).map(|t| t.parse().unwrap()).unwrap_or(0),
+    }
 }
 
 type OutS = Pin<Box<dyn Stream<Item = String>>>;
-type ItemS = Pin<Box<dyn Stream<Item = u64>>>;
+type ItemS = Pin<Box<dyn Stream<Item = Tok>>>;
 
-fn conv_single(r: Result<u64, PE>) -> String {
+fn conv_single(r: Result<Tok, PE>) -> String {
     match r {
-        Ok(y) => format!("q+{}", y),
+        Ok(y) => format!("q+{}", y.take()),
         Err(PE::Next(y)) => format!("q-{}", y),
         Err(PE::Proc(x)) => format!("a{}", x),
     }
 }
 
-fn conv_comp(r: Result<u64, ComposedError<PE, PE>>) -> String {
+fn conv_comp(r: Result<Tok, ComposedError<PE, PE>>) -> String {
     match r {
-        Ok(y) => format!("q+{}", y),
+        Ok(y) => format!("q+{}", y.take()),
         Err(ComposedError::Second(PE::Next(y))) => format!("q-{}", y),
         Err(ComposedError::First(PE::Next(y))) => format!("f{}", y),
         Err(ComposedError::First(PE::Proc(x))) => format!("a{}", x),
@@ -272,10 +382,10 @@ async fn run_case(payload: String, sh: Rc<Shared>) -> String {
     let mut top: Option<OutS> = None;
     for (k, l) in layers.into_iter().enumerate() {
         let o: OutS = match l {
-            Layer::S(p) => Box::pin(cur.layer(ScriptProc::new(k, false, p, sh.clone())).map(conv_single)),
+            Layer::S(p) => Box::pin(cur.layer(ScriptProc::new(k, Role::Only, p, sh.clone())).map(conv_single)),
             Layer::C(p1, p2) => {
-                let a = ScriptProc::new(k, false, p1, sh.clone());
-                let b = ScriptProc::new(k, true, p2, sh.clone());
+                let a = ScriptProc::new(k, Role::First, p1, sh.clone());
+                let b = ScriptProc::new(k, Role::Second, p2, sh.clone());
                 if k % 2 == 0 {
                     Box::pin(cur.layer(PipelineBuilder::new().layer(a).layer(b).build()).map(conv_comp))
                 } else {
@@ -292,7 +402,7 @@ async fn run_case(payload: String, sh: Rc<Shared>) -> String {
             // everything else leaves the chain here and is recorded.
             cur = Box::pin(o.filter_map(move |s: String| {
                 shc.ev(format!("P{}:{}", k + 1, s));
-                let r = s.strip_prefix("q+").map(|t| t.parse::<u64>().unwrap());
+                let r = s.strip_prefix("q+").map(|t| Tok::new(t.parse::<u64>().unwrap(), false, k + 1, &shc));
                 std::future::ready(r)
             }));
         }
